@@ -43,8 +43,9 @@ Theorem C10_empty_tag_is_source_constant : empty_tag = gen_empty_tag /\ proto_co
 Proof. split; [exact empty_tag_bridge|exact proto_code_error_bridge]. Qed.
 Print Assumptions C10_empty_tag_is_source_constant.
 
-(* Net code: timeouts -> 110; an errno under wrappers -> that errno; anything else -> 999;
-   never 0 for a failed exchange. *)
+(* Net code: timeouts -> 110; an errno under wrappers (strip_wrap: the Underlying() chain, then the
+   Cause() chain, then any nesting of OpError / SyscallError / url.Error) -> that errno; anything
+   else -> 999; never 0 for a failed exchange. *)
 Theorem C10_netcode : forall e,
   get_errno true e = 110 /\
   (forall n, net_wrapped (strip_wrap e) = EErrno n -> get_errno false e = n) /\
@@ -387,6 +388,21 @@ Proof.
 Qed.
 Print Assumptions C10_scenario_file_samples.
 
+(* the same for a gRPC scenario file (`calls:` with name, tag, call): labelled with the call TAGS *)
+Theorem C10_scenario_file_samples_grpc : forall name (reg : list (sdecl * gstep)) items,
+  (forall samples, gscen_file_shoot name reg items = Some samples -> samples = gscen_file_spec name reg items) /\
+  (forall tr, gscen_file_ev name reg items = Some tr ->
+     handoff_ok false tr = true /\ at_report tr = gscen_file_spec name reg items /\ at_end tr = gscen_file_spec name reg items) /\
+  (forall nm cnt r, items = SIReq nm (S cnt) :: r -> forallb (item_known reg) items = true ->
+     gscen_file_shoot name reg items = Some (gscen_file_spec name reg items)).
+Proof.
+  intros name reg items. split; [intros; apply gscen_file_shoot_spec; assumption|].
+  split; [intros; apply gscen_file_ev_spec; assumption|].
+  intros nm cnt r -> Hk. unfold gscen_file_shoot. rewrite scen_steps_accepts by exact Hk.
+  cbn [option_map]. f_equal. apply gscen_decl_shoot_spec.
+Qed.
+Print Assumptions C10_scenario_file_samples_grpc.
+
 (* two requests sharing a tag stay two labels; "b(2)" is two steps; the sleep is none;
    the second declaration of "a" is the one meant *)
 Example C10_scenario_file_example :
@@ -462,5 +478,8 @@ Proof. split; vm_compute; reflexivity. Qed.
 (* non-vacuity: a concrete error shape meeting the errno hypothesis *)
 Example C10_netcode_example :
   get_errno false (EWrap (EUrl (EOp (ESys (EErrno 111))))) = 111 /\
-  get_errno false (EUrl (EWrap (EErrno 111))) = 999.
-Proof. split; reflexivity. Qed.
+  get_errno false (EUrl (EWrap (EErrno 111))) = 999 /\
+  (* Underlying() is followed first, then Cause(); not the other way round *)
+  get_errno false (EUnder (EUnder (EWrap (EOp (ESys (EErrno 104)))))) = 104 /\
+  get_errno false (EWrap (EUnder (EErrno 104))) = 999.
+Proof. repeat split; reflexivity. Qed.
